@@ -270,7 +270,8 @@ impl Engine {
                 let vs = r.take(m);
                 match self.batch[s].as_mut() {
                     None => return vec![8],
-                    Some((b, _)) => {
+                    Some((b, size)) => {
+                        let size = *size as u32;
                         let mut rejected = 0u64;
                         let mut none = false;
                         with_comp!(t, C, {
@@ -279,7 +280,16 @@ impl Engine {
                                 Some(mut w) => {
                                     for &v in &vs {
                                         self.ledger.give(&[(t, v)], &sizes, out);
-                                        if let Err(x) = w.push(C::new(v)) {
+                                        let before = w.fill();
+                                        let res = w.push(C::new(v));
+                                        // a column never takes more values than the batch has rows, and fill() counts them
+                                        if res.is_ok() && (before >= size || w.fill() != before + 1) {
+                                            out.flag(format!("C12: a writer accepted a value for column {t} although {before} of {size} rows were already written (fill now {})", w.fill()));
+                                        }
+                                        if res.is_err() && before < size {
+                                            out.flag(format!("C12: a writer refused a value for column {t} although only {before} of {size} rows were written"));
+                                        }
+                                        if let Err(x) = res {
                                             // handed back to the caller
                                             let n = drops_len();
                                             let back = [(t, if sizes[t as usize] == 0 { 0 } else { x.val() })];
